@@ -1,7 +1,8 @@
 import json
 from propbase import Prop, COMMON_TRUSTED, drop_one
-from coqterm import cZ, cnat, clist, cpair
-from mw_common import Broken, c_op, c_obs, c_desc, strip_outputs, count_ops, fewer_ops
+from coqterm import cZ, cnat, clist
+from mw_common import (Broken, c_obs, c_desc, c_life_history, strip_outputs, count_ops, fewer_ops, simpler_msgs,
+                       fewer_connections, count_life, is_life)
 
 
 class C18(Prop):
@@ -17,9 +18,14 @@ class C18(Prop):
     max_reports = 3
     rule = ("60% one stateful middleware (quota N, receive-side window, send-side window; N, size cycling through 1,2,3), "
             "40% stacks of two or three different ones in a random order (sometimes with a stateless limit in between); "
-            "1..6 sessions of ONE handler value advanced one operation at a time in a harness-chosen interleaving; histories "
-            "of 4..40 operations over {REQ,CLOSE}x{a,b,c}, client EVENTx{x,y,z}, server EVENTx{x,y,z} and a few "
-            "EOSE/CLOSED/COUNT/AUTH/OK/NOTICE; non-trivial = at least one message answered or dropped and one passed; "
+            "1..6 connections of ONE handler value advanced one operation at a time in a harness-chosen interleaving; in a "
+            "third of the cases connections come and go (up to 6 slots, 3 connections at a time): a connection ends with what "
+            "it opened still open and another begins afterwards, in a new slot or in the one just vacated; histories "
+            "of 4..40 operations over {REQ,CLOSE}x{a,b,c}, client EVENTx{x,y,z}, server EVENTx{x,y,z}, the downstream's OK "
+            "for x/y/z (accepted 40%, else refused with duplicate:/rate-limited:/blocked:/error:/no prefix) and a few "
+            "EOSE/CLOSED/COUNT/AUTH/NOTICE; the kind of the event behind an id is fixed per case: 1, or one of 0, 1, 3, 5, "
+            "9999, 10000, 19999, 20000, 20001, 29999, 30000, 39999, 40000 (every NIP-01 class and both sides of its "
+            "boundaries); non-trivial = at least one message answered or dropped and one passed; "
             "distinct = distinct inputs")
     trusted_base = COMMON_TRUSTED + [
         "the harness's sentinel protocol (a reserved CLOSE that every middleware forwards, answered by a reserved NOTICE) "
@@ -29,17 +35,19 @@ class C18(Prop):
     ]
     assumptions = [
         "N >= 1 and window size >= 1 (the constructors panic otherwise)",
-        "sessions are advanced one operation at a time; truly simultaneous operations of different sessions are not "
-        "scheduled by the harness (each session's state is private in the model; the shared-state mutants are caught "
+        "connections are advanced one operation at a time; truly simultaneous operations of different connections are not "
+        "scheduled by the harness (each connection's state is private in the model; the shared-state mutants are caught "
         "by sequential interleavings)",
+        "a connection ends by cancellation of its context; the next operation is issued after ServeNostr has returned "
+        "(ServeNostrEnd of every wrapper has run), a connection's first operation after a sentinel round trip "
+        "(ServeNostrStart of every wrapper has run)",
         "'last size distinct ids seen' counts every EVENT reaching the filter, repeats included",
         "an id seen earlier but no longer among the last size distinct ids may be forwarded or rejected (not claimed)",
     ]
 
     def to_coq(self, I, c):
         try:
-            ops = c.get("ops") or []
-            h = clist(ops, lambda o: cpair(cnat(o.get("s", 0)), c_op(I, o)), "(nat * op)%type")
+            h = c_life_history(I, c.get("ops") or [])
             obs = clist(c.get("obs") or [], lambda o: c_obs(I, o), "obs")
             return "(CSys %s %s %s %s %s)" % (cZ(c.get("now", 0)), clist(c.get("mws") or [], lambda s: c_desc(I, s), "mwdesc"),
                                             cnat(c.get("nsess", 1)), h, obs)
@@ -52,7 +60,7 @@ class C18(Prop):
             if op["d"] == "c":
                 a = a or bool(ob.get("client"))
                 b = b or bool(ob.get("down"))
-            elif op["m"]["t"] == "EVENT":
+            elif op["d"] == "s" and op["m"]["t"] == "EVENT":
                 a = a or not ob.get("client")
                 b = b or bool(ob.get("client"))
         return json.dumps(strip_outputs(c), sort_keys=True) if a and b else None
@@ -62,20 +70,14 @@ class C18(Prop):
 
     def shrink(self, c):
         c = strip_outputs(c)
+        yield from fewer_connections(c)
         for ops in fewer_ops(c.get("ops") or []):
             yield dict(c, ops=ops)
         if len(c.get("mws") or []) > 1:
             for mws in drop_one(c["mws"]):
                 yield dict(c, mws=mws)
-        # merge the highest session into a smaller system when it is unused
-        used = {o.get("s", 0) for o in c.get("ops") or []}
-        n = c.get("nsess", 1)
-        if n > 1:
-            for s in range(n):
-                if s not in used:
-                    ops = [dict(o, s=o["s"] - 1 if o["s"] > s else o["s"]) for o in c["ops"]]
-                    yield dict(c, nsess=n - 1, ops=ops)
-                    break
+        for ops in simpler_msgs(c.get("ops") or []):
+            yield dict(c, ops=ops)
 
     def extra_coverage(self, cases, tier):
         if tier != "thorough":
@@ -87,10 +89,11 @@ class C18(Prop):
         ], "exhaustive": False}
 
     def summarize(self, c):
-        return {"mws": c.get("mws"), "nsess": c.get("nsess"), "n_ops": len(c.get("ops") or [])}
+        return {"mws": c.get("mws"), "slots": c.get("nsess"), "n_ops": len([o for o in c.get("ops") or [] if not is_life(o)])}
 
     def distribution(self, cases):
-        d = {"cases": len(cases), "sessions": {}, "stack_sizes": {}, "kinds": {}}
+        d = {"cases": len(cases), "sessions": {}, "stack_sizes": {}, "kinds": {}, "event_kinds": {},
+             "downstream_ok_refused": 0, "downstream_ok_accepted": 0}
         for c in cases:
             n = str(c.get("nsess"))
             d["sessions"][n] = d["sessions"].get(n, 0) + 1
@@ -99,6 +102,14 @@ class C18(Prop):
             for s in c.get("mws") or []:
                 key = "%s=%s" % (s["t"], s.get("n"))
                 d["kinds"][key] = d["kinds"].get(key, 0) + 1
+            for o in c.get("ops") or []:
+                m = o.get("c") or o.get("m") or {}
+                if m.get("t") == "EVENT":
+                    k = str(m["e"].get("kind"))
+                    d["event_kinds"][k] = d["event_kinds"].get(k, 0) + 1
+                if o["d"] == "s" and m.get("t") == "OK":
+                    d["downstream_ok_accepted" if m.get("acc") else "downstream_ok_refused"] += 1
+        count_life(cases, d)
         return count_ops(cases, d)
 
 
